@@ -429,8 +429,8 @@ func (s *ISet) ForEach(f func(uint64) bool) {
 func (s *ISet) Hash() uint64 {
 	h := uint64(1469598103934665603)
 	for _, v := range s.iv {
-		h = (h ^ v.Lo) * 1099511628211
-		h = (h ^ v.Hi) * 1099511628211
+		h = hstep(h, v.Lo)
+		h = hstep(h, v.Hi)
 	}
 	return h
 }
